@@ -37,7 +37,7 @@ FLOORS = {"option_cases": (15000, 60000), "present_falsy": (3000, 12000), "absen
           "domain_decided": (500, 1500), "option_history_steps": (5000, 20000), "namespace_member_checks": (1500, 30000), "set_cases": (1500, 30000), "string_default_cases": (650, 650), "transported_option_checks": (4000, 4000)}
 SHARDS_QUICK = 4
 
-KEYS = ["A", "S", "S.X", "S.Y", "T.X", "L", "L.0", "L.1", "L.2", "S.X.Z"]
+KEYS = ["A", "S", "S.X", "S.Y", "T.X", "L", "L.0", "L.1", "L.2", "S.X.Z", "L.-1", "K-1"]  # (L.-1: the last element; K-1: not an identifier)
 STORED = U.SCALARS + [[], [1], [0, "a"], {}, {"X": 1}, "{B}", "x{B}y", "{S.Y}", "{T.X}{B}", "{Q}", ["{B}", 1], {"K": "{B}"}]
 DEFAULTS = [
     ("none", None), ("const", 0), ("const", None), ("const", ""), ("const", [1]), ("const", "dflt"), ("const", []), ("const", {}), ("const", [[], {"k": []}]),
@@ -59,7 +59,7 @@ def place(base, key, value):
     if parts[0] == "L" and len(parts) == 2:
         lst = list(base.get("L", []))
         idx = int(parts[1])
-        while len(lst) <= idx:
+        while len(lst) <= idx or (idx < 0 and len(lst) < -idx):
             lst.append("pad")
         lst[idx] = copy.deepcopy(value)
         return U.set_path(base, "L", lst)
